@@ -55,6 +55,9 @@ EXPLANATION = (
     "R3, the reserved names / name parts of check_vname in R6, local or module level): no element is an implicit concatenation of "
     "adjacent string literals (a lost comma merges two entries into one that matches nothing); decided on the token stream of the "
     "element's source extent, with a synthetic positive control on every run.  "
+    "R4 narrowing: a statement that narrows a resolved selection (a private filter of the look-up implementation handed the selection, "
+    "a filtering comprehension) is a selection of its own - narrowed to nothing from a non-empty selection, every continuation must "
+    "pass a warn / raise after the narrowing.  "
     "R4 scope: a look-up in a private helper without any effect (engine effect summaries) is listed as a read-only query - what its "
     "callers do with the answer is not followed.  "
     "NOT decided: which names belong in the reserved list, message quality, errors raised by third-party libraries, loudness of "
@@ -1821,7 +1824,7 @@ def _r4_lift(ctx, rid, f, pos, must_raise, depth, via):
     return None
 
 
-def _r4_follow(ctx, rid, f, st, r, must_raise, depth=0, starts=None):
+def _r4_follow(ctx, rid, f, st, r, must_raise, depth=0, starts=None, extra_env=None):
     """Under the assumption that the local `r` (bound at `st`) is empty: a witness (function, path, how) of a silent continuation,
     or None when every continuation passes a reporter.  A private helper that hands `r` back to its callers is followed there."""
     from engine.dataflow import stmt_defs
@@ -1845,6 +1848,8 @@ def _r4_follow(ctx, rid, f, st, r, must_raise, depth=0, starts=None):
     def goal(x):
         return x is cfg.EXIT or x is st or (isinstance(x, (ast.stmt, ast.ExceptHandler)) and r in stmt_defs(x))
     env = assume(ctx, f, **{r: Len(0)})
+    if extra_env:
+        env.update(extra_env)
     eok = _raise_edge_ok(ctx, f)
     starts = list(cfg.g.successors(st)) if starts is None else starts
     verdict, w = decide_silent(cfg, starts, goal, lambda x: reporter(x) or id(x) in hands_back, env, (r,), eok)
@@ -1874,6 +1879,50 @@ def _hands_selection_back(cfg, st, call) -> bool:
                    and _result_position(x.value, lambda e: isinstance(_through_copies(e), ast.Name) and _through_copies(e).id == r) is not None
                    for x in cfg.stmts())
     return False
+
+
+def _narrowings(ctx, f, cfg, st, r, narrowers) -> list:
+    """Statements of `f` that bind a narrowed version of the selection `r` (bound at `st`): [(statement, new name, argument name)].
+    Narrowing = a call of one of the `narrowers` (the private filters of the look-up implementation, e.g. by operator / variable)
+    that is handed the selection, or a filtering comprehension `[n for n in sel if ...]` / `list(filter(p, sel))`."""
+    from engine.dataflow import assigned_value
+    rd = ctx.rd(f)
+
+    def is_selection(e, at, depth=0) -> Optional[str]:
+        e = _through_copies(e)
+        if not isinstance(e, ast.Name) or depth > 3:
+            return None
+        defs = rd.defs_reaching_at(at, e.id)
+        if not defs:
+            return None
+        for d in defs:
+            if d is st and e.id == r:
+                continue
+            v = assigned_value(d, e.id) if isinstance(d, ast.AST) else None
+            if v is None or is_selection(v, d, depth + 1) is None:
+                return None
+        return e.id
+    out = []
+    for st2 in cfg.stmts():
+        if st2 is st or not (isinstance(st2, ast.Assign) and len(st2.targets) == 1 and isinstance(st2.targets[0], ast.Name)):
+            continue
+        v = st2.value
+        arg = None
+        if isinstance(v, ast.Call):
+            targets, how = ctx.cg.resolve_call(f, v)
+            if targets and all(t in narrowers for t in targets):
+                for a in list(v.args) + [k.value for k in v.keywords]:
+                    nm = is_selection(a, st2)
+                    if nm is not None:
+                        arg = nm
+            elif isinstance(v.func, ast.Name) and v.func.id == "list" and len(v.args) == 1 and isinstance(v.args[0], ast.Call) \
+                    and isinstance(v.args[0].func, ast.Name) and v.args[0].func.id == "filter" and len(v.args[0].args) == 2:
+                arg = is_selection(v.args[0].args[1], st2)
+        elif isinstance(v, ast.ListComp) and len(v.generators) == 1 and v.generators[0].ifs:
+            arg = is_selection(_loop_source(v.generators[0].iter), st2)
+        if arg is not None:
+            out.append((st2, st2.targets[0].id, arg))
+    return out
 
 
 def r4_empty_selection_reported(ctx, rid):
@@ -1961,6 +2010,25 @@ def r4_empty_selection_reported(ctx, rid):
                                            f"{'raising' if must_raise else 'a warning or an exception'} ({ps}): the "
                                            f"{'requested output is silently omitted' if must_raise else 'input / parameter update is silently dropped'}",
                               dict(facts, witness=ps), label=label)
+        # ---- a narrowing of the resolved selection (filter by operator / variable) is a selection of its own: a non-empty
+        # selection narrowed to nothing must be reported AFTER the narrowing; a test placed before it does not count
+        if r not in ("<returned>", "<iterated>"):
+            for st2, x, a_name in _narrowings(ctx, f, cfg, st, r, impl - {gn}):
+                extra = {} if a_name == x else {a_name: Len(1)}
+                if r not in (x, a_name):
+                    extra[r] = Len(1)
+                wit2 = _r4_follow(ctx, rid, f, st2, x, must_raise, extra_env=extra)
+                lab2 = f"narrowed selection: {norm(st2, 100)}"
+                if wit2 is None:
+                    ctx.ok(rid, f, st2, f"when the narrowing leaves nothing of a non-empty selection (`{x}` empty) every continuation passes a "
+                                        f"{'raise' if must_raise else 'warn/raise'}", {"narrowed_from": a_name}, label=lab2)
+                else:
+                    wf, wpath, how = wit2
+                    ps = ctx.cfg(wf).path_str(wpath)
+                    ctx.violation(rid, f, st2, f"`{norm(st2, 80)}` narrows the resolved selection `{a_name}`; when nodes were addressed but none passes "
+                                               f"the filter (`{x}` empty) {wf.qualname} {how} without a warning or an exception ({ps}) - the emptiness "
+                                               f"test before the narrowing does not see this case: the input / parameter update is silently dropped",
+                                  {"witness": ps, "narrowed_from": a_name}, label=lab2)
     ctx.require(n >= 1, f"{rid}: no get_nodes look-up of a user path found")
     # every must-raise function still performs a look-up (itself or through an extracted helper); the two branches of
     # get_variable_positions may legitimately be merged into one loop, so the numeric floor counts functions, not sites
